@@ -120,10 +120,14 @@ def execute(case, prefix, collect=None):
         sched.begin()
         t1 = schedx.Thread(target=N.run_handler(node, sock), name='handler')
         t2 = schedx.Thread(target=lambda: [N.driver_op(node, op) for op in case['ops']] + [done.append(1)], name='driver')
-        t1.start()
-        t2.start()
-        t1.join()
-        t2.join()
+        ts = [t1, t2]
+        if case.get('script2'):
+            sock2 = N.CoopSock(sched, 'c2', [(l + '\n').encode() for l in case['script2']], eof_when=lambda: bool(done))
+            ts.append(schedx.Thread(target=N.run_handler(node, sock2), name='handler2'))
+        for t in ts:
+            t.start()
+        for t in ts:
+            t.join()
         holder['final'] = N.current_cache(node)
         holder['params'] = all_params(node)
 
@@ -157,20 +161,35 @@ def judge(case, sched, x, holder):
         if e[0] == 'cache':
             hist[e[1]].append((i, e[2]))
     order = {p: {key: n for n, (_i, key) in enumerate(hist[p])} for p in params}
-    # --- connection c1: requests, replies, table evolution
-    script = case['script']
+    for label, script in [('c1', case['script'])] + ([('c2', case['script2'])] if case.get('script2') else []):
+        viol += judge_conn(label, script, log, params, hist, order, final, holder)
+    # --- observer
+    obs = holder.get('obs')
+    if obs is not None:
+        for p in params:
+            got = [k[2] for k in (N.msg_key(l) for l in obs.lines) if k[0] == 'update' and k[1] == p]
+            want = [key for _i, key in hist[p][1:]]
+            if got != want:
+                viol.append(('observer-stream-differs', f'observer got {p}: {got}, cache changes were {want}'))
+    return viol
+
+
+def judge_conn(conn, script, log, params, hist, order, final, holder):
+    """the clauses of the oracle for one scripted connection"""
+    from vf.harness import nodeconc as N
+    viol = []
     req_idx = {}
     c1_events = []      # (logindex, kind, spec, key)
     late = []           # attempts on the closed socket
     for i, e in enumerate(log):
-        if e[0] == 'req' and e[1] == 'c1':
+        if e[0] == 'req' and e[1] == conn:
             req_idx[e[2]] = i
-        elif e[0] == 'send' and e[1] == 'c1':
+        elif e[0] == 'send' and e[1] == conn:
             c1_events.append((i,) + N.msg_key(e[2]))
-        elif e[0] == 'send-closed' and e[1] == 'c1':
+        elif e[0] == 'send-closed' and e[1] == conn:
             late.append((i,) + N.msg_key(e[2]))
-    eof_idx = next((i for i, e in enumerate(log) if e[0] == 'eof' and e[1] == 'c1'), None)
-    closed_idx = next((i for i, e in enumerate(log) if e[0] == 'closed' and e[1] == 'c1'), None)
+    eof_idx = next((i for i, e in enumerate(log) if e[0] == 'eof' and e[1] == conn), None)
+    closed_idx = next((i for i, e in enumerate(log) if e[0] == 'closed' and e[1] == conn), None)
     replies = [ev for ev in c1_events if ev[1] != 'update']
     if len(replies) != len(script):
         viol.append(('reply-count', f'{len(script)} requests but {len(replies)} replies: {[r[1:3] for r in replies]}'))
@@ -230,11 +249,11 @@ def judge(case, sched, x, holder):
                     if ci is not None and ci < ridx:
                         # the change was made before the unsubscribing reply: a broadcast in flight across it
                         viol.append((f'update-in-flight-delivered-after-{why}',
-                                     f'update of {p} ({ev[3]}, cache change at log index {ci}) was sent to c1 at {ev[0]}, after the '
+                                     f'update of {p} ({ev[3]}, cache change at log index {ci}) was sent to {conn} at {ev[0]}, after the '
                                      f'{why} reply at {ridx}'))
                     else:
                         viol.append((f'update-for-change-made-after-{why}',
-                                     f'update of {p} ({ev[3]}, cache change at {ci}) sent to c1 at {ev[0]} although it is not '
+                                     f'update of {p} ({ev[3]}, cache change at {ci}) sent to {conn} at {ev[0]} although it is not '
                                      f'subscribed since the {why} reply at {ridx}'))
                     break
         # after the disconnect: no send attempt for a change made after the socket was closed
@@ -244,7 +263,7 @@ def judge(case, sched, x, holder):
                 ci = hist[p][n][0] if n is not None else None
                 if ci is not None and closed_idx is not None and ci > closed_idx:
                     viol.append(('update-for-change-made-after-disconnect',
-                                 f'update of {p} ({ev[3]}, cache change at {ci}) attempted on c1 at {ev[0]}, closed at {closed_idx}'))
+                                 f'update of {p} ({ev[3]}, cache change at {ci}) attempted on {conn} at {ev[0]}, closed at {closed_idx}'))
         # complete: every cache change inside a must interval is delivered afterwards
         for ci, key in hist[p][1:]:
             # the notification of this change has returned at log index di; a change whose notification was still under way
@@ -254,29 +273,21 @@ def judge(case, sched, x, holder):
                 # (an attempt that hit the socket already closed by the peer's disconnect counts: nothing can be delivered then)
                 if not any(ev[0] > ci and ev[3] == key for ev in ups) and \
                         not any(ev[1] == 'update' and ev[2] == p and ev[3] == key for ev in late):
-                    viol.append(('update-lost', f'cache change of {p} to {key} at {ci} while subscribed was never delivered to c1'))
+                    viol.append(('update-lost', f'cache change of {p} to {key} at {ci} while subscribed was never delivered to {conn}'))
         # order / no invented state
         last = -1
         for ev in ups:
             n = order[p].get(ev[3])
             if n is None:
-                viol.append(('update-with-state-never-held', f'c1 got {p} = {ev[3]} which the cache never held ({hist[p]})'))
+                viol.append(('update-with-state-never-held', f'{conn} got {p} = {ev[3]} which the cache never held ({hist[p]})'))
                 break
             if n < last:
-                viol.append(('stale-update-after-newer', f'c1 got {p} states in order {[e[3] for e in ups]} but the cache went {[k for _i, k in hist[p]]}'))
+                viol.append(('stale-update-after-newer', f'{conn} got {p} states in order {[e[3] for e in ups]} but the cache went {[k for _i, k in hist[p]]}'))
                 break
             last = n
         # quiet
         if table.subscribed(p) and (eof_idx is None or holder.get('hold')) and (ups[-1][3] if ups else None) != final[p]:
             viol.append(('last-message-differs-from-cache', f'{p}: last message {ups[-1][3]} but cache {final[p]}'))
-    # --- observer
-    obs = holder.get('obs')
-    if obs is not None:
-        for p in params:
-            got = [k[2] for k in (N.msg_key(l) for l in obs.lines) if k[0] == 'update' and k[1] == p]
-            want = [key for _i, key in hist[p][1:]]
-            if got != want:
-                viol.append(('observer-stream-differs', f'observer got {p}: {got}, cache changes were {want}'))
     return viol
 
 
@@ -315,6 +326,12 @@ def cases(tier):
             if sname == 'global-stay':
                 res.append({'name': f'{sname}/{oname}/hold', 'script': SCRIPTS[sname], 'ops': OPS[oname], 'observer': False,
                             'level': 'sync', 'bound': 2 if tier == 'quick' else 3})
+    # two scripted connections with different scopes (other connections' scopes are unaffected)
+    for name, s1, s2 in [('param|global-deact', ['activate m:value'], ['activate', 'deactivate']),
+                         ('module|param-ident', ['activate m', 'deactivate m'], ['activate m:value', '*IDN?']),
+                         ('global|global', ['activate', 'deactivate'], ['activate'])]:
+        res.append({'name': f'two:{name}/value2', 'script': s1, 'script2': s2, 'ops': OPS['value2'], 'observer': False,
+                    'level': 'sync', 'bound': 1 if tier == 'quick' else 2})
     # line level in the dispatcher / funnel
     line_scripts = ['global-deact', 'param-deact-by-module', 'global-ident', 'module-eof'] if tier == 'quick' else list(SCRIPTS)
     for sname in line_scripts:
